@@ -1807,6 +1807,16 @@ func (t *fnTrans) visibleVars() map[string]string {
 			out["len("+name+")"] = "(sl_len " + v.term + ")"
 		}
 	}
+	// lengths of the Header/Body of message-typed parameters
+	for _, p := range t.fn.Params {
+		if t.g.isMsgPtr(p.Type()) {
+			for _, f := range []string{"Body", "Header"} {
+				if hv, _, ok := t.fieldHVByName(p.Type(), f); ok {
+					out["len("+p.Name()+"."+f+")"] = "(sl_len " + sel(t.h.get(t.cur, hv), t.val(p)) + ")"
+				}
+			}
+		}
+	}
 	for name, v := range t.ghostVals {
 		if v.sort == "Slice" {
 			out["len("+name+")"] = "(sl_len " + v.term + ")"
